@@ -91,6 +91,7 @@ func NewClientWithLogger(
 		ctx,
 		cancel,
 		sync.WaitGroup{},
+		sync.Mutex{},
 	}
 }
 
@@ -124,6 +125,7 @@ type client struct {
 	context                          context.Context
 	cancelFunc                       context.CancelFunc
 	wg                               sync.WaitGroup // For the read loop.
+	legacyMutex                      sync.Mutex     // ATP v1 has no run IDs: one step at a time owns the connection.
 }
 
 func (c *client) sendCBOR(message any) error {
@@ -194,6 +196,9 @@ func (c *client) Execute(
 	// One decoder for the life of the client: a stream decoder reads ahead, and a second decoder on the same channel
 	// would start in the middle of whatever the first one had already buffered.
 	cborReader := c.decoder
+	if c.atpVersion <= 1 {
+		return c.executeLegacy(stepData, workStartMsg, cborReader)
+	}
 	if c.atpVersion > 1 {
 		// Wrap it in a runtime message.
 		workStartMsg = RuntimeMessage{RunID: stepData.RunID, MessageID: MessageTypeWorkStart, MessageData: workStartMsg}
@@ -217,7 +222,21 @@ func (c *client) Execute(
 	}
 	c.logger.Debugf("Step '%s' started, waiting for response...", stepData.ID)
 
-	return c.getResult(stepData, cborReader)
+	return c.getResultV2(stepData)
+}
+
+// executeLegacy runs a step over ATP v1 (also assumed for a peer whose hello message was never read). Legacy replies
+// carry no run ID: the next message on the connection belongs to whoever sent the last work start. Concurrent steps
+// would read each other's replies from the shared decoder, so they take turns.
+func (c *client) executeLegacy(stepData schema.Input, workStartMsg any, cborReader *cbor.Decoder) ExecutionResult {
+	c.legacyMutex.Lock()
+	defer c.legacyMutex.Unlock()
+	if err := c.sendCBOR(workStartMsg); err != nil {
+		c.logger.Errorf("Step '%s' failed to write start work message: %v", stepData.ID, err)
+		return NewErrorExecutionResult(fmt.Errorf("failed to write work start message (%w)", err))
+	}
+	c.logger.Debugf("Step '%s' started, waiting for response...", stepData.ID)
+	return c.getResultV1(cborReader, stepData)
 }
 
 // Close Tells the client that it's done, and can stop listening for more requests.
@@ -517,19 +536,6 @@ func (c *client) executeReadLoop(cborReader *cbor.Decoder) {
 		if c.stopReadLoopIfIdle() {
 			return
 		}
-	}
-}
-
-// executeStep handles the reading of work done, signals, or any other outputs from the plugins.
-// It branches off with different logic for ATP versions 1 and 2.
-func (c *client) getResult(
-	stepData schema.Input,
-	cborReader *cbor.Decoder,
-) ExecutionResult {
-	if c.atpVersion >= 2 {
-		return c.getResultV2(stepData)
-	} else {
-		return c.getResultV1(cborReader, stepData)
 	}
 }
 
